@@ -60,7 +60,7 @@ def check(v, events):
             if op["op"] == "insert" and not op["result"].startswith("err"):
                 info[op["id"]] = {"acct": op["acct"], "nonce": op["nonce"], "group": op["group"], "costs": {a: int(n) for a, n in op["costs"].items()}}
                 gone.discard(op["id"])
-            if op["op"] == "insert" and op["result"] == "err:ParkedSizeLimit":
+            if op["op"] == "insert" and "ParkedSizeLimit" in op["result"]:
                 v.saw("parked_total_limit_hit")
             if e.get("recosted"):
                 for i, c in e["recosted"].items():
@@ -88,6 +88,14 @@ def check(v, events):
                                   dict(wit, id=i, tx=info[i], last_place=place.get(i)))
                     else:
                         trans.add((place.get(i), st))
+                        if st == "removed:InternalError" and place.get(i) == "parked":
+                            # a parked transaction only leaves the pool by promotion, staleness, expiry or invalidation; an
+                            # "internal error" removal means a promotion failed, i.e. the mempool picked a transaction its own
+                            # ready set could not take
+                            v.violate("C13/valid-parked-transaction-dropped/after:%s" % op["op"],
+                                      "a parked transaction was dropped with an internal error (failed promotion)", dict(wit, id=i, tx=info[i]))
+                        if st == "removed:InternalError":
+                            v.saw("internal_error_removals")
                         if st == "removed:Expired":
                             v.saw("expiry")
                         if st == "removed:LowerNonceInvalidated":
